@@ -53,6 +53,11 @@ contradictory ones are refuted by `omega` -/
 macro "src_ite" : tactic =>
   `(tactic| (repeat' split) <;> first | rfl | (exfalso; omega) | (simp_all; done) | omega)
 
+/-- decide the next `if` of the goal from the hypotheses in context, however its arithmetic test is spelled -/
+macro "srcb_if" : tactic => `(tactic| first
+  | (rw [if_pos]; (first | done | (rotate_left; omega)))
+  | (rw [if_neg]; (first | done | (rotate_left; omega))))
+
 theorem natAbs_mag (v : Int) : (if v ≥ (0 : Int) then v else (-v - 1)).natAbs = if v ≥ 0 then v.toNat else (-v - 1).toNat := by
   split <;> omega
 
@@ -335,10 +340,11 @@ theorem src_to_cell_eq (mk : Bits → List R → Option (Py.CellV R)) (hmk : ∀
     · by_cases hz : len = 0 ∧ val = 0
       · obtain ⟨hl, hv⟩ := hz
         subst hl; subst hv
-        simp only [h1, h2, ne_eq, not_true_eq_false, or_self, and_self, if_true, if_false, BOp.skip]
+        simp only [h1, h2, and_self, if_true, BOp.skip]
+        srcb_if
         exact src_end_cell_snd mk hmk _ _ e2
-      · have hz' : (len ≠ 0 ∨ val ≠ 0) := by omega
-        simp only [h1, h2, hz', hz, if_true, if_false]
+      · simp only [h1, h2, hz, if_true, if_false]
+        srcb_if
         cases h3 : (BOp.storeUint val len (BOp.storeUint (len : Int) 9 (BOp.storeBits [false, true] (Builder.empty : Builder R)).1).1).2
         · simp [h3]
         · simp only [h3, if_true]
